@@ -28,7 +28,7 @@ HARNESSES = [
 
 RULE = ("8-bit types: every value x every base 2..36 x buffer lengths {0, digits-1, digits, digits+1} (all lengths "
         "0..digits+2 for bases 2,3,8,10,16,36), round trip for every value x base; 16-bit: all powers of each base +-1, "
-        "limits, limits/base +-1, stride + seeded random (thorough: every value); 32/64-bit: the same boundary tables + seeded "
+        "limits, limits/base +-1, stride + seeded random (thorough: every value in base 10, one of 2/16/36 and base 2 + v mod 35); 32/64-bit: the same boundary tables + seeded "
         "random; to_string for every instantiated capacity around the digit count; parser inputs from the grammar "
         "ws* sign? prefix? digits tail with digits rendered from the boundary tables (random case, leading zeros, one "
         "extra digit, limit+-1), lone signs, empty strings and characters adjacent to the digit ranges; "
@@ -236,23 +236,20 @@ def gen(tier, rng):
                     continue
                 fmt_cases(ty, v, b, b in fullbases and (not quick or ty != "c"))
                 out.append(f"roundtrip {ty} {b} {v}")
-    # ---- 16-bit
+    # ---- 16-bit: thorough = every value; quick = stride sample here + the boundary pairs below
     for ty in ("s", "us"):
         lo, hi = lim(ty)
-        if quick:
-            vals = set(boundary_values(ty, allbases, rng, 40))
-            vals |= set(range(lo, hi + 1, 251))
-        else:
-            vals = set(range(lo, hi + 1))
-        for v in sorted(vals):
-            bs = allbases if (quick or v % 7 == 0 or abs(v) < 40) else fullbases
-            for b in bs:
-                if quick and b not in fullbases and rng.random() < .75:
-                    continue
-                fmt_cases(ty, v, b, b in (2, 10, 36) and (v % 5 == 0))
+        vals = range(lo, hi + 1, 251) if quick else range(lo, hi + 1)
+        for v in vals:
+            if quick:
+                bs = fullbases + [rng.choice(allbases)]
+            else:   # every value: base 10, one of 2/16/36 and one base that walks through all 35 (v mod 35)
+                bs = [10, (2, 16, 36)[v % 3], 2 + v % 35]
+            for b in sorted(set(bs)):
+                fmt_cases(ty, v, b, b in (2, 10, 36) and (v % (5 if quick else 97) == 0), lean=not quick)
                 out.append(f"roundtrip {ty} {b} {v}")
     # ---- 32/64-bit: powers of each base +-1 and limits/base +-1 in that base (and base 10), random values
-    for ty in ("i", "u", "l", "ul", "ll", "ull"):
+    for ty in ("s", "us", "i", "u", "l", "ul", "ll", "ull"):
         lo, hi = lim(ty)
         pairs = set()
         for b in allbases:
@@ -271,7 +268,7 @@ def gen(tier, rng):
                     pairs.add((v, b))
                     if not quick or b in fullbases:
                         pairs.add((v, 10))
-        for _ in range(150 if quick else 20000):
+        for _ in range(150 if quick else 3000):
             k = rng.randint(1, TYPES[ty][0])
             for v in (rng.randint(-(1 << k), 1 << k), rng.randint(lo, hi)):
                 if lo <= v <= hi:
@@ -300,9 +297,10 @@ def gen(tier, rng):
         for v in sorted({lo, lo + 1, -100, -10, -9, -1, 0, 1, 9, 10, 99, 100, hi - 1, hi} | {rng.randint(lo, hi) for _ in range(6)}):
             if not (lo <= v <= hi):
                 continue
-            for b in (2, 10, 16, 36, rng.choice(allbases)):
+            wide = quick and TYPES[ty][0] == 64
+            for b in ((10, rng.choice([2, 16, 36])) if wide else (2, 10, 16, 36, rng.choice(allbases))):
                 n = len(text(v, b))
-                for ln in range(0, n + 3):
+                for ln in (sorted({0, 1, n - 1, n, n + 1, n + 2}) if wide else range(0, n + 3)):
                     for term in (0, 1):
                         out.append(f"from_integer {ty} {term} {b} {ln} {v}")
                         out.append(f"from_integer_buf {ty} {term} {b} {ln} {v}")
